@@ -63,7 +63,9 @@ def gen_case(rng, oversize=False):
     if oversize:
         k = rng.randrange(max(1, nreq - 3))
         reqs[k]["size"] = rng.choice([1473, 1474, 1480, 1488, 1500, 3000])
-        reqs[k]["cancel"] = None
+        # the caller of a request that can never fit may give up as well
+        reqs[k]["cancel"] = rng.choice([None, None, "atput", "atput",
+                                        "queued", "early"])
     frames_pol = []
     for f in range(80):
         r = rng.random()
@@ -73,7 +75,10 @@ def gen_case(rng, oversize=False):
             fate=fate, delay=rng.choice([0.0001, 0.0003, 0.001, 0.004]),
             wkc0=[rng.random() < 0.15 for _ in range(16)]))
     return dict(reqs=reqs, frames=frames_pol, key=rng.getrandbits(8),
-                rseed=rng.getrandbits(32), oversize=oversize)
+                rseed=rng.getrandbits(32), oversize=oversize,
+                # the second and later masters on an interface use another
+                # ethertype than the default
+                ethertype=rng.choice([0x88A4, 0x88A4, 0x3000, 0x4567]))
 
 
 def transform(key, rid, pos, data):
@@ -106,6 +111,7 @@ def run_history(case):
 
     async def main(loop):
         ec = EtherCat("vf")
+        ec.ethertype = case.get("ethertype", 0x88A4)
         ec.send_queue = asyncio.Queue()
         sent = []
 
@@ -134,6 +140,12 @@ def run_history(case):
                 log["frames"].append(dict(n=n, ids=ids, fate=pol["fate"],
                                           t=loop.time()))
                 if pol["fate"] == "lose":
+                    return
+                if struct.unpack("<H", dgs[0].data)[0] != ec.ethertype:
+                    # the dispatcher stamps the returning frame with the
+                    # ethertype of its identification datagram: this one
+                    # comes back on another master's socket
+                    log["misrouted"] = log.get("misrouted", 0) + 1
                     return
                 delay = pol["delay"] * (8 if pol["fate"] == "slow" else 1)
                 loop.call_later(delay, ec.datagram_received, bytes(out), None)
@@ -255,6 +267,8 @@ def check_history(case, log, res):
         if r["cancel"] == "early":
             continue
         if r["size"] > MAXFIT:
+            if r["cancel"] and kind == "cancelled":
+                continue     # its caller gave up first
             if kind not in ("exception", "error"):
                 return ("oversized-request-does-not-fail",
                         f"request of {r['size']} bytes ended {kind}")
